@@ -14,6 +14,7 @@
 EXTENDS Integers, Sequences, FiniteSets, TLC, Json, IOUtils, SequencesExt
 
 Hosts == {"h1", "h2"}
+QueryHosts == Hosts \cup {"H1"}      \* a host that equals a configured one only up to case is another host
 URIs == {"/a/x", "/a/b/x", "/ab", "/c?q=/a", "/a%2Fb/x", "/"}
 HostSets == {<<>>, <<"h1">>, <<"h2">>, <<"h1", "h2">>}
 PrefixSets == {<<>>, <<"/a">>, <<"/a/b">>, <<"/">>, <<"/b">>, <<"/b", "/a/">>}
@@ -38,7 +39,7 @@ Allowed(cfg, q) ==
   LET cand == {i \in DOMAIN cfg : cfg[i].name \in RangeS(q.names) /\ Match(cfg[i], q.host, q.uri)}
   IN {i \in cand : \A j \in cand : Class(cfg[i]) <= Class(cfg[j])}
 
-Queries == {[names |-> n, host |-> h, uri |-> u] : n \in NameLists, h \in Hosts, u \in URIs}
+Queries == {[names |-> n, host |-> h, uri |-> u] : n \in NameLists, h \in QueryHosts, u \in URIs}
 
 Named(shapes, names) == [i \in DOMAIN shapes |-> shapes[i] @@ [name |-> names[i]]]
 
